@@ -14,7 +14,7 @@ STREAM_ORDER = ['ops', 'guards', 'mat', 'chart', 'cfg']
 RULE = ('well-formed chart drawn per run whose guards are P.tguard(i, event, after(d), idle(d2), time), whose states carry invariants '
         'P.tcond(j, after(d), idle(d2), time), half of whose states carry a postcondition P.tpost(j, after(d), time), half of whose transitions carry an invariant P.ttinv(i, idle(d), time) and whose entry/exit/action code logs the `time` variable; contract checking is on. The '
         'interpreter clock is a SkewClock (a larger value at every read) in half of the runs and a SimClock moved from inside probe calls '
-        '(i.e. during the step) in the other half - half of those count integer ticks from 2**62+3, which no double represents -; advances are drawn from {0, exactly d, d -/+ one tick, large}. Every time observation '
+        '(i.e. during the step) in the other half - half of those count integer ticks from 2**62+3, which no double represents; a third of the rest use decimal times (0.1, 0.3, ...) and only check that every evaluation of one predicate about one state in one step gives the same answer -; advances are drawn from {0, exactly d, d -/+ one tick, large}. Every time observation '
         'of a step must equal the first clock value read by execute_once, and every logged after/idle value must equal the exact '
         'comparison with entry / idle stamps kept by the model from the real entered lists and fired transitions. non-trivial = a step '
         'with >= 1 after/idle observation whose stamp differs from the step time; distinct = distinct (chart, step time, stamps of the '
@@ -46,6 +46,19 @@ def run(ch, tier):
     for t in sp.trans:
         if tp.flag(1, 2):
             t.tinv_idle = tp.pick([0, 1, 2, 0.5])
+    # decimal mode: times and durations that no double represents exactly (0.1, 0.3, ...).  What a predicate answers on a boundary
+    # then depends on rounding, so the exact model is switched off; what remains is that after(d) / idle(d) is a *function* of
+    # (step time, stamp, d): a guard and a contract of the same state asking the same question in the same step agree
+    decimal = not skew and not bigint and cs.flag(1, 3)
+    if decimal:
+        d0 = tp.pick([0.1, 0.2, 0.3, 0.5, 0.7])
+        for t in sp.trans:
+            t.tg_after = None if t.tg_after is None else d0
+            t.tg_idle = None if t.tg_idle is None else d0
+            t.tinv_idle = None if t.tinv_idle is None else d0
+        for s_ in sp.states.values():
+            s_.tinv = [(j, None if a is None else d0, None if i is None else d0) for j, a, i in s_.tinv]
+            s_.tpost = [(j, d0) for j, a in s_.tpost]
     scale = 1
     if bigint:
         # an integer tick counter far beyond 2**53: every duration of the chart is expressed in ticks (1/64 time unit)
@@ -66,6 +79,8 @@ def run(ch, tier):
 
         def on_probe(kind):
             d = mv.pick([0, 0, 1 / 64, 1, 8]) * scale
+            if decimal:
+                d = (0, 0, 0.1, 0.2, 0.3)[int(d * 64) % 5]
             if d:
                 moves[0] += 1
                 clock.advance(d)
@@ -89,7 +104,10 @@ def run(ch, tier):
             sim.queue(ops.pick(live) if live and ops.flag(3, 4) else ops.pick(names))
             continue
         if op == 'advance':
-            sim.advance(scale * ops.pick([F(1), F(0), TICK, F(1) - TICK, F(1) + TICK, F(1, 2), F(2), F(3), F(2) - TICK, F(50)]))
+            if decimal:
+                sim.clock.advance(ops.pick([0.1, 0.2, 0.3, 0.1, 0.4, 0.5]))
+            else:
+                sim.advance(scale * ops.pick([F(1), F(0), TICK, F(1) - TICK, F(1) + TICK, F(1, 2), F(2), F(3), F(2) - TICK, F(50)]))
             continue
         truth = sim.draw_truth(gs, 5, 8)
         del started[:]
@@ -118,6 +136,12 @@ def run(ch, tier):
             return res.fail('step-time', "Interpreter.time was %r while 'step started' was being dispatched, the step time is %r" % (during[-1:], float(T)), **ctx)
         if [F(x) for x in started] != [T]:
             return res.fail('step-time', "'step started' meta-events carried time %r, step time is %r" % (started, float(T)), **ctx)
+        if decimal:
+            why = consistent(sp, sim, r, T)
+            if why:
+                return res.fail('predicate-not-a-function', why, **ctx)
+            res.stats['decimal_steps_checked_for_consistency'] += 1
+            continue
         # stamps valid while the guards / invariants of this step are evaluated
         entry = dict(r.entry_before)
         idle = dict(r.idle_before)
@@ -199,10 +223,58 @@ def run(ch, tier):
                     res.stats['internal_transition_fired'] += 1
                 elif t.target == t.source:
                     res.stats['self_loop_fired'] += 1
-    res.stats['skew_runs' if skew else 'integer_tick_clock_beyond_2_53_runs' if bigint else 'probe_moved_runs'] += 1
+    res.stats['skew_runs' if skew else 'integer_tick_clock_beyond_2_53_runs' if bigint else 'decimal_time_runs' if decimal else 'probe_moved_runs'] += 1
     res.stats['fault_clock_moved_inside_step'] += moves[0] if not skew else clock.reads
     res.sim_time = float(sim.now())
     return res
+
+
+def consistent(sp, sim, r, T):
+    """decimal mode: every evaluation of after(d0) / idle(d0) for one (state, stamp) in this step gave the same answer"""
+    seen = {}
+
+    def note(state, kind, stamp, value, where):
+        seen.setdefault((state, kind, stamp), []).append((bool(value), where))
+    entry, idle = dict(r.entry_before), dict(r.idle_before)
+    for e in r.log:
+        if e[0] == 'tguard':
+            t = sp.trans[e[1]]
+            if t.tg_after is not None:
+                note(t.src, 'after', entry.get(t.src), e[3], 'guard of t%d' % t.i)
+            if t.tg_idle is not None:
+                note(t.src, 'idle', idle.get(t.src), e[4], 'guard of t%d' % t.i)
+        elif e[0] == 'tcond':
+            owner = next(s for s in sp.states.values() if any(c[0] == e[1] for c in s.tinv))
+            a, i = next((c[1], c[2]) for c in owner.tinv if c[0] == e[1])
+            if a is not None:
+                note(owner.name, 'after', sim.entry.get(owner.name), e[2], 'invariant of ' + owner.name)
+            if i is not None:
+                note(owner.name, 'idle', sim.idle.get(owner.name), e[3], 'invariant of ' + owner.name)
+    if r.ms is not None:
+        est, ist = dict(r.entry_before), dict(r.idle_before)
+        tp_log = [e for e in r.log if e[0] == 'tpost']
+        ti_log = [e for e in r.log if e[0] == 'ttinv']
+        kp = ki = 0
+        for m in r.ms.steps:
+            for sname in m.exited_states:
+                for j, a in sp.states[sname].tpost:
+                    if kp < len(tp_log) and tp_log[kp][1] == j:
+                        note(sname, 'after', est.get(sname), tp_log[kp][2], 'postcondition of ' + sname)
+                        kp += 1
+            if m.transition is not None:
+                t = sp.trans[tid(m.transition)]
+                if t.tinv_idle is not None and ki + 1 < len(ti_log) and ti_log[ki][1] == t.i:
+                    note(t.src, 'idle', ist.get(t.src), ti_log[ki][2], 'invariant of t%d before its action' % t.i)
+                    ki += 2
+                ist[t.src] = T
+            for sname in m.entered_states:
+                est[sname] = T
+                ist[sname] = T
+    for (state, kind, stamp), vals in sorted(seen.items(), key=repr):
+        if stamp is not None and len({v for v, _ in vals}) > 1:
+            return '%s() with the same argument, asked about %s (stamp %r) at step time %r, answered %s' % (
+                kind, state, float(stamp), float(T), ['%s: %s' % (w, v) for v, w in vals][:4])
+    return None
 
 
 def check_pred(res, sp, what, state, a, i, got_after, got_idle, got_time, T, entry, idle, ctx):
